@@ -14,6 +14,7 @@ CHECKS = {
     "C01": {
         "stages": [
             st("main", "rel", [1500, 40000], [25, 420]),
+            st("avx2", "avx2", [300, 8000], [20, 300]),
             st("dbgassert", "relda", [300, 6000], [20, 300], shards=8),
             st("asan", "asan", [0, 1500], [0, 300], thorough_only=True, shards=8),
         ],
@@ -30,6 +31,7 @@ CHECKS = {
     "C02": {
         "stages": [
             st("main", "rel", [1500, 40000], [25, 420]),
+            st("avx2", "avx2", [300, 8000], [20, 300]),
             st("dbgassert", "relda", [300, 6000], [20, 300], shards=8),
         ],
         "rule": "same generator as C01, 30% tie-heavy dictionaries; every non-empty tokenization is judged (a) by an independent i64 DP over "
@@ -44,6 +46,7 @@ CHECKS = {
     "C03": {
         "stages": [
             st("main", "rel", [1500, 40000], [25, 420]),
+            st("avx2", "avx2", [300, 8000], [20, 300]),
             st("dbgassert", "relda", [300, 6000], [20, 300], shards=8),
         ],
         "rule": "generated dictionaries sweeping invoke/group/length, max_grouping_len and overlapping/multi-category ranges; for every "
@@ -65,19 +68,21 @@ CHECKS = {
                env={"MIRIFLAGS_EXTRA": "-Zmiri-many-seeds=0..8"}),
         ],
         "rule": "case = generated dictionary + <= 6 distinct sentences (empty, one char, tripled, spaces only ...); (1) a random history of "
-                "reset_sentence/tokenize (0-3 times)/init_connid_counter/update_connid_counts of length <= 40 on ONE worker, every result "
-                "read after a tokenize is compared with a fresh worker's result for the same sentence; (2) 2-16 threads, each with its own "
+                "reset_sentence/tokenize (0-3 times)/read/init_connid_counter/update_connid_counts of length <= 40 on ONE worker, every result "
+                "read after a tokenize is compared with a fresh worker's result for the same sentence, every read between reset_sentence and "
+                "tokenize with what a fresh worker shows after the same reset_sentence; (2) 2-16 threads, each with its own "
                 "worker of ONE shared Tokenizer, run random sentence lists concurrently with seeded yield points, each result compared with "
                 "the sequential one; client-side tickets record overlapping calls. TSan (and Miri, thorough) watch the thread workload. "
                 "Non-trivial = a history, or a thread workload in which calls of different threads overlapped; distinct by content hash.",
         "required_buckets": ["tokenize_repeated", "shorter_after_longer", "empty_sentence_in_history", "non_empty_after_empty",
-                             "update_counts_in_history", "threads_overlapped"],
+                             "update_counts_in_history", "threads_overlapped", "read_between_reset_and_tokenize"],
         "assumptions": ["interleavings are sampled (OS scheduler + seeded yields), not enumerated",
                         "Tokenizer: Send + Sync and Dictionary: Send + Sync are asserted at compile time by the harness"],
     },
     "C06": {
         "stages": [
             st("main", "rel", [800, 20000], [25, 400]),
+            st("avx2", "avx2", [200, 4000], [20, 300]),
             st("dbgassert", "relda", [200, 3000], [20, 200], shards=8),
         ],
         "rule": "case = generated dictionary (matrix/raw/dual) + user lexicon + a history of 1-5 operations from {map with a random pair of "
@@ -94,6 +99,7 @@ CHECKS = {
     "C08": {
         "stages": [
             st("main", "rel", [600, 15000], [25, 400]),
+            st("avx2", "avx2", [150, 3000], [20, 300]),
             st("dbgassert", "relda", [150, 2500], [20, 200], shards=8),
             st("asan", "asan", [0, 600], [0, 300], thorough_only=True, shards=8),
         ],
@@ -111,6 +117,7 @@ CHECKS = {
     "C12": {
         "stages": [
             st("main", "rel", [1200, 30000], [25, 400]),
+            st("avx2", "avx2", [250, 5000], [20, 300]),
             st("dbgassert", "relda", [250, 4000], [20, 200], shards=8),
         ],
         "rule": "dictionaries meeting the stated precondition (U+0020/U+3000 in SPACE alone, nothing else in SPACE, no surface with a space) "
